@@ -33,12 +33,15 @@ func (vc *VC) watched(full string) (string, bool) {
 
 // matchWatch: does the event name full (callee, value or "send:"+channel name) match watch name w?
 func matchWatch(w, full string) bool {
-	ws, fs := strings.HasPrefix(w, "send:"), strings.HasPrefix(full, "send:")
-	if ws != fs {
-		return false
-	}
-	if ws {
-		w, full = w[5:], full[5:]
+	for _, pre := range []string{"send:", "recv:"} {
+		ws, fs := strings.HasPrefix(w, pre), strings.HasPrefix(full, pre)
+		if ws != fs {
+			return false
+		}
+		if ws {
+			w, full = w[5:], full[5:]
+			break
+		}
 	}
 	n := normName(full)
 	return n == w || strings.HasSuffix(n, "."+w)
@@ -441,7 +444,45 @@ func (f *frame) havocCall(callee *ssa.Function, sig *types.Signature, argVals []
 			}
 			mods = nm
 		} else if _, isSig := a.Type().Underlying().(*types.Signature); isSig && !ok {
-			mods = nil
+			av := a
+			for {
+				ct, isCT := av.(*ssa.ChangeType)
+				if !isCT {
+					break
+				}
+				av = ct.X
+			}
+			_, isFn := av.(*ssa.Function)
+			_, isParam := av.(*ssa.Parameter)
+			cst, isConst := av.(*ssa.Const)
+			switch {
+			case isHashCtor(a.Type()), isParam, isConst && cst.Value == nil, isAssumedPure(valueName(av)):
+				// no effect beyond what the callee's own write set says
+			case isFn:
+				if mods != nil {
+					nm := map[string]bool{}
+					for k := range mods {
+						nm[k] = true
+					}
+					for k := range vc.P.modSet(av.(*ssa.Function)) {
+						nm[k] = true
+					}
+					mods = nm
+				}
+			default:
+				if mc2, isMC := av.(*ssa.MakeClosure); isMC && mods != nil {
+					nm := map[string]bool{}
+					for k := range mods {
+						nm[k] = true
+					}
+					for k := range vc.P.modSet(mc2.Fn.(*ssa.Function)) {
+						nm[k] = true
+					}
+					mods = nm
+				} else {
+					mods = nil
+				}
+			}
 		}
 	}
 	if mods == nil || mods["*"] {
@@ -691,6 +732,31 @@ func (f *frame) selectInstr(x *ssa.Select) {
 		rs = append(rs, f.freshOf("selrecv", tup.At(i).Type()))
 	}
 	f.tuples[x] = rs
+	// receive cases: the chosen case consumed one value from its channel
+	ri := 2
+	for i, s := range x.States {
+		if s.Dir != types.RecvOnly {
+			continue
+		}
+		var recvd Term
+		if ri < len(rs) {
+			recvd = rs[ri]
+		}
+		ri++
+		w, ok := vc.watched("recv:" + valueName(s.Chan))
+		if !ok {
+			continue
+		}
+		chosen := mkEq(idx, i64(int64(i)))
+		n := f.st.get("G$ncalls$"+w, SBV64)
+		f.st.set("G$ncalls$"+w, vc.define("G$ncalls$"+w, mkIte(chosen, bvAdd(n, i64(1)), n)))
+		c := f.st.get("G$called$"+w, SBool)
+		f.st.set("G$called$"+w, vc.define("G$called$"+w, mkOr(c, chosen)))
+		if recvd.valid() {
+			a := f.st.get("G$ret$"+w+"$0", recvd.Sort)
+			f.st.set("G$ret$"+w+"$0", vc.define("G$ret$"+w, mkIte(chosen, recvd, a)))
+		}
+	}
 	for i, s := range x.States {
 		if s.Dir == types.SendOnly {
 			// a send happens iff this case is chosen
@@ -854,10 +920,22 @@ func (f *frame) callConcrete(fn *ssa.Function, recv Term, c *ssa.CallCommon, pos
 	if ct := vc.P.contractFor(target); ct != nil && !ct.onlyLoops() && !ct.Inline {
 		return f.contractCallTerms(target, ct, args, pos)
 	}
-	if target.Synthetic == "" && vc.P.inRepo(target) && f.canInline(target) {
+	noInl := false
+	if ct := vc.P.contractFor(target); ct != nil && ct.NoInline {
+		noInl = true
+	}
+	// synthetic wrappers (promoted methods, value->pointer) forward to a declared method: honour its contract flags
+	if target.Synthetic != "" {
+		if decl := wrappedMethod(target); decl != nil {
+			if ct := vc.P.contractFor(decl); ct != nil && ct.NoInline {
+				noInl = true
+			}
+		}
+	}
+	if !noInl && target.Synthetic == "" && vc.P.inRepo(target) && f.canInline(target) {
 		return f.inlineTerms(target, args, pos)
 	}
-	if target.Synthetic != "" && target.Blocks != nil && f.canInline(target) {
+	if !noInl && target.Synthetic != "" && target.Blocks != nil && f.canInline(target) {
 		return f.inlineTerms(target, args, pos)
 	}
 	mods := vc.P.modSet(target)
@@ -955,7 +1033,13 @@ func (P *Program) eventNames(fn *ssa.Function) map[string]bool {
 					for _, st := range x.States {
 						if st.Dir == types.SendOnly {
 							out["send:"+valueName(st.Chan)] = true
+						} else {
+							out["recv:"+valueName(st.Chan)] = true
 						}
+					}
+				case *ssa.UnOp:
+					if x.Op == token.ARROW {
+						out["recv:"+valueName(x.X)] = true
 					}
 				case *ssa.MakeClosure:
 					visit(x.Fn.(*ssa.Function))
@@ -1033,4 +1117,19 @@ func (f *frame) taintEvents(callees []*ssa.Function, skip map[string]bool) {
 		f.st.set("G$ncalls$"+w, vc.define("G$ncalls", bvAdd(f.st.get("G$ncalls$"+w, SBV64), d)))
 		f.st.set("G$tainted$"+w, vc.define("G$tainted", mkOr(f.st.get("G$tainted$"+w, SBool), some)))
 	}
+}
+
+// wrappedMethod returns the declared method that a synthetic wrapper forwards to (its single static callee).
+func wrappedMethod(w *ssa.Function) *ssa.Function {
+	var found *ssa.Function
+	for _, b := range w.Blocks {
+		for _, in := range b.Instrs {
+			if c, ok := in.(*ssa.Call); ok {
+				if sc := c.Call.StaticCallee(); sc != nil && sc.Name() == w.Name() {
+					found = sc
+				}
+			}
+		}
+	}
+	return found
 }
